@@ -14,6 +14,7 @@ mod ops;
 mod props;
 mod server;
 mod util;
+mod wire;
 
 use util::{RunCfg, Tier};
 
